@@ -35,6 +35,13 @@ def spaces():
             bad = [np.ones(n - 1) * 0.5, np.ones(n + 1) * 0.5, np.ones((1, n)) * 0.5, vec(np.nextafter(hi, 9.0), 0.0),
                    vec(hi + 1.0, 0.0), vec(0.0, lo - 1.0), vec(np.nextafter(lo, -9.0), 0.5), vec(np.nan, 0.5),
                    vec(np.inf, 0.0), vec(0.0, -np.inf), None, "abc", 0.5, [0.5] * (n + 2)]
+            if cname != "nocash":
+                # malformed in the CASH slot only (the cash entry is ignored when executing, not when validating)
+                ci = [isinstance(c, Cash) for c in clist].index(True)
+                for badv in (np.nan, hi + 1.0, lo - 1.0, np.inf):
+                    b_ = vec(0.5, 0.25)
+                    b_[ci] = badv
+                    bad.append(b_)
             out["%s-%s" % (bname, cname)] = (lambda clist=clist, lo=lo, hi=hi: BoxPortfolio(clist, lo, hi), good, bad, denote, "weight", True)
         if cname == "nocash":
             good = [np.array([2.0, 3.0]), np.array([2.7, 0.0]), np.array([8.0, 7.9]), [0, 1]]
